@@ -100,6 +100,10 @@ class MEDDLY::common_dfs_by_events_mt : public saturation_operation {
     virtual void saturateHelper(unpacked_node& mdd) = 0;
 
   protected:
+    // Saturate, for a node built below level k, the levels up to k that it
+    // skips (a fully-reduced result may skip levels that have events).
+    node_handle saturateSkipped(node_handle n, int k);
+
     inline ct_entry_key*
     findResult(node_handle a, node_handle b, node_handle &c)
     {
@@ -434,6 +438,29 @@ void MEDDLY::common_dfs_by_events_mt
   delete so;
 }
 
+MEDDLY::node_handle MEDDLY::common_dfs_by_events_mt
+::saturateSkipped(node_handle n, int k)
+{
+  if (!resF->isFullyReduced()) return n;
+  if (resF->isTerminalNode(n)) return n;
+  for (int L = resF->getNodeLevel(n)+1; L<=k; L++) {
+    if (0 == rel->lengthForLevel(L)) continue;
+    // Fire the events of level L on the redundant node above n
+    const unsigned sz = unsigned(resF->getLevelSize(L));
+    unpacked_node* nb = unpacked_node::newWritable(resF, L, sz, FULL_ONLY);
+    for (unsigned i=0; i<sz; i++) {
+      nb->setFull(i, resF->linkNode(n));
+    }
+    resF->unlinkNode(n);
+    saturateHelper(*nb);
+    edge_value ev;
+    resF->createReducedNode(nb, ev, n);
+    MEDDLY_DCASSERT(ev.isVoid());
+    if (resF->isTerminalNode(n)) return n;
+  }
+  return n;
+}
+
 // ******************************************************************
 // *       common_dfs_by_events_mt::indexq  methods                 *
 // ******************************************************************
@@ -555,7 +582,8 @@ void MEDDLY::forwd_dfs_by_events_mt::saturateHelper(unpacked_node& nb)
         unsigned j = Rp->index(jz);
         if (-1==nb.down(j)) continue;  // nothing can be added to this set
 
-        node_handle rec = recFire(nb.down(i), Rp->down(jz));
+        node_handle rec = saturateSkipped(
+            recFire(nb.down(i), Rp->down(jz)), nb.getLevel()-1);
 
         if (rec == 0) continue;
         if (rec == nb.down(j)) {
@@ -647,7 +675,7 @@ MEDDLY::node_handle MEDDLY::forwd_dfs_by_events_mt::recFire(
     // that's an important special case that we can handle quickly.
 
     for (unsigned i=0; i<rSize; i++) {
-      nb->setFull(i, recFire(A->down(i), mxd));
+      nb->setFull(i, saturateSkipped(recFire(A->down(i), mxd), rLevel-1));
       // nb->d_ref(i) = recFire(A->down(i), mxd);
     }
 
@@ -681,7 +709,8 @@ MEDDLY::node_handle MEDDLY::forwd_dfs_by_events_mt::recFire(
         // ok, there is an i->j "edge".
         // determine new states to be added (recursively)
         // and add them
-        node_handle newstates = recFire(A->down(i), Rp->down(jz));
+        node_handle newstates = saturateSkipped(
+            recFire(A->down(i), Rp->down(jz)), rLevel-1);
         if (0==newstates) continue;
         if (0==nb->down(j)) {
           nb->setFull(j, newstates);
@@ -796,7 +825,8 @@ void MEDDLY::bckwd_dfs_by_events_mt::saturateHelper(unpacked_node& nb)
           if (0==expl->data[j]) continue;
           if (0==nb.down(j))       continue;
           // We have an i->j edge to explore
-          node_handle rec = recFire(nb.down(j), Rp->down(jz));
+          node_handle rec = saturateSkipped(
+              recFire(nb.down(j), Rp->down(jz)), nb.getLevel()-1);
 
           if (0==rec) continue;
           if (rec == nb.down(i)) {
@@ -880,7 +910,7 @@ MEDDLY::node_handle MEDDLY::bckwd_dfs_by_events_mt::recFire(node_handle mdd,
     // Skipped levels in the MXD,
     // that's an important special case that we can handle quickly.
     for (unsigned i=0; i<rSize; i++) {
-      nb->setFull(i, recFire(A->down(i), mxd));
+      nb->setFull(i, saturateSkipped(recFire(A->down(i), mxd), rLevel-1));
       // nb->d_ref(i) = recFire(A->down(i), mxd);
     }
   } else {
@@ -913,7 +943,8 @@ MEDDLY::node_handle MEDDLY::bckwd_dfs_by_events_mt::recFire(node_handle mdd,
         // ok, there is an i->j "edge".
         // determine new states to be added (recursively)
         // and add them
-        node_handle newstates = recFire(A->down(j), Rp->down(jz));
+        node_handle newstates = saturateSkipped(
+            recFire(A->down(j), Rp->down(jz)), rLevel-1);
         if (0==newstates) continue;
         if (0==nb->down(i)) {
           nb->setFull(i, newstates);
